@@ -628,3 +628,140 @@ theorem mean2_perm (k : Nat) : PermInv (mean2 k) MVEqv := by
   exact mvEqv_equiv.1 _
 
 end MlModel.Agg.Rolling
+
+namespace MlModel.Agg.Rolling
+
+/-! ## the real `merge` never raises inside a well-typed family -/
+
+/-- shapes that occur when every batch is 1-D (`k = none`) or has exactly `k` columns -/
+def MVWf : Option Nat → MV → Prop
+  | none, s => s.vec = false ∧ s.cols.length = 1 ∧ s.shape.tail = []
+  | some k, s =>
+    (s.vec = false ∧ s.allVarNan = true ∧ s.shape = [] ∧ s.cols.length = 1) ∨
+    (s.vec = true ∧ s.cols.length = k ∧ (s.shape = [] ∨ s.shape.tail = [k]))
+
+theorem MVWf.fresh (fam : Option Nat) : MVWf fam MV.fresh := by
+  cases fam with
+  | none => exact ⟨rfl, rfl, rfl⟩
+  | some k => exact Or.inl ⟨rfl, rfl, rfl, rfl⟩
+
+theorem MVWf.ofList (xs : List F) : MVWf none (MV.ofList xs) := by
+  refine ⟨rfl, rfl, ?_⟩
+  simp only [MV.ofList]
+  split <;> rfl
+
+theorem MVWf.ofRows (k : Nat) (rows : List (List F)) : MVWf (some k) (MV.ofRows k rows) := by
+  refine Or.inr ⟨rfl, by simp [MV.ofRows], ?_⟩
+  simp only [MV.ofRows]
+  split
+  · exact Or.inl rfl
+  · exact Or.inr rfl
+
+theorem mergeShape_tail {s o : MV} {t : List Nat} (hs : s.shape = [] ∨ s.shape.tail = t)
+    (ho : o.shape = [] ∨ o.shape.tail = t) (hne : o.shape ≠ []) :
+    o.shape.tail = (MV.mergeShape s o).tail := by
+  unfold MV.mergeShape
+  rcases ho with ho | ho
+  · exact absurd ho hne
+  · rcases hs with hs | hs
+    · simp [hs]
+    · by_cases he : s.shape.isEmpty = true
+      · simp [he]
+      · simp [he, hs, ho]
+
+/-- **no `ValueError` inside a family** and the family is closed under `merge` -/
+theorem MVWf.merge {fam : Option Nat} {s o : MV} (hs : MVWf fam s) (ho : MVWf fam o) :
+    MV.merge true s o = .ok (MV.mergeCore true s o) ∧ MVWf fam (MV.mergeCore true s o) := by
+  have key : MV.mergeErr s o = none → MV.merge true s o = .ok (MV.mergeCore true s o) := by
+    intro h; simp [MV.merge, h]
+  by_cases hg : o.allVarNan = true
+  · refine ⟨key (by simp [MV.mergeErr, hg]), ?_⟩
+    rw [MV.mergeCore_cols, if_pos hg]; exact hs
+  · cases fam with
+    | none =>
+      obtain ⟨sv, sl, ss⟩ := hs
+      obtain ⟨ov, ol, os⟩ := ho
+      refine ⟨key ?_, ?_⟩
+      · have ht : (MV.mergeShape s o).tail = [] := by
+          unfold MV.mergeShape; split <;> assumption
+        simp [MV.mergeErr, hg, os, ht, sv, ov, sl, ol]
+      · rw [MV.mergeCore_cols, if_neg hg]
+        refine ⟨by simp [MV.bcast, sv, ov], ?_, ?_⟩
+        · simp [MV.bcast, sv, ov, sl, ol]
+        · show (MV.mergeShape s o).tail = []
+          unfold MV.mergeShape; split <;> assumption
+    | some k =>
+      rcases ho with ⟨_, hon, _, _⟩ | ⟨ov, ol, os⟩
+      · exact absurd hon hg
+      · have hss : s.shape = [] ∨ s.shape.tail = [k] := by
+          rcases hs with ⟨_, _, h, _⟩ | ⟨_, _, h⟩
+          · exact Or.inl h
+          · exact h
+        have hshape : o.shape.isEmpty = false → o.shape.tail = (MV.mergeShape s o).tail := by
+          intro hne
+          exact mergeShape_tail hss os (by intro h; simp [h] at hne)
+        have hms : (MV.mergeShape s o) = [] ∨ (MV.mergeShape s o).tail = [k] := by
+          unfold MV.mergeShape
+          split
+          · exact os
+          · exact hss
+        rcases hs with ⟨sv, _, _, sl⟩ | ⟨sv, sl, _⟩
+        · refine ⟨key ?_, ?_⟩
+          · by_cases he : o.shape.isEmpty = true
+            · simp [MV.mergeErr, hg, he, sv, ov]
+            · simp only [Bool.not_eq_true] at he
+              simp [MV.mergeErr, hg, he, hshape he, sv, ov]
+          · rw [MV.mergeCore_cols, if_neg hg]
+            refine Or.inr ⟨by simp [MV.bcast, sv, ov], by simp [MV.bcast, sv, ov, ol], hms⟩
+        · refine ⟨key ?_, ?_⟩
+          · by_cases he : o.shape.isEmpty = true
+            · simp [MV.mergeErr, hg, he, sv, ov, sl, ol]
+            · simp only [Bool.not_eq_true] at he
+              simp [MV.mergeErr, hg, he, hshape he, sv, ov, sl, ol]
+          · rw [MV.mergeCore_cols, if_neg hg]
+            refine Or.inr ⟨by simp [MV.bcast, sv, ov], by simp [MV.bcast, sv, ov, sl, ol], hms⟩
+
+end MlModel.Agg.Rolling
+
+namespace MlModel.Agg.Rolling
+
+/-- a history evaluated with the REAL methods: `new`, and `merge` that may raise `ValueError` -/
+def MV.evalReal {X : Type} (new : List X → MV) : Expr X → Except ErrKind MV
+  | .fresh => .ok MV.fresh
+  | .batch xs => MV.merge true MV.fresh (new xs)          -- `MeanAndVariance().add(xs)`
+  | .merge a b => do
+    let sa ← MV.evalReal new a
+    let sb ← MV.evalReal new b
+    MV.merge true sa sb
+
+theorem MV.evalReal_wf {X : Type} (fam : Option Nat) (new : List X → MV)
+    (hnew : ∀ xs, MVWf fam (new xs)) (e : Expr X) :
+    ∃ s, MV.evalReal new e = .ok s ∧ MVWf fam s := by
+  induction e with
+  | fresh => exact ⟨_, rfl, MVWf.fresh fam⟩
+  | batch xs =>
+    obtain ⟨h1, h2⟩ := MVWf.merge (MVWf.fresh fam) (hnew xs)
+    exact ⟨_, h1, h2⟩
+  | merge a b iha ihb =>
+    obtain ⟨sa, ha, wa⟩ := iha
+    obtain ⟨sb, hb, wb⟩ := ihb
+    obtain ⟨h1, h2⟩ := MVWf.merge wa wb
+    exact ⟨_, by simp [MV.evalReal, ha, hb, h1, bind, Except.bind], h2⟩
+
+/-- on `k`-column data the instance `mv2 k` *is* the real evaluation -/
+theorem mv2_evalReal (k : Nat) (e : Expr (Row k)) :
+    MV.evalReal (fun rows => MV.ofRows k (rows.map (·.val))) e = .ok (e.eval (mv2 k)) := by
+  have hnew : ∀ xs : List (Row k), MVWf (some k) (MV.ofRows k (xs.map (·.val))) :=
+    fun xs => MVWf.ofRows k _
+  induction e with
+  | fresh => rfl
+  | batch xs => exact (MVWf.merge (MVWf.fresh (some k)) (hnew xs)).1
+  | merge a b iha ihb =>
+    obtain ⟨sa, ha, wa⟩ := MV.evalReal_wf (some k) _ hnew a
+    obtain ⟨sb, hb, wb⟩ := MV.evalReal_wf (some k) _ hnew b
+    rw [ha] at iha; rw [hb] at ihb
+    cases iha; cases ihb
+    simp only [MV.evalReal, ha, hb, bind, Except.bind]
+    exact (MVWf.merge wa wb).1
+
+end MlModel.Agg.Rolling
